@@ -89,7 +89,9 @@ def rule_patterns(ctx: Ctx, data):
     tm = repo.mod("tokenizers")
     db = repo.need_func("tokenizers.HyperscanTokenizer.hyperscan_db")
     # does the flag expression include HS_FLAG_UTF8?
-    flag_src = " ".join(norm(s) for s in stmts_local(db.body) if isinstance(s, ast.Assign) and norm(s.targets[0]) == "flags")
+    comp0 = [n for n in walk_local(db) if isinstance(n, ast.Call) and norm(n.func).endswith(".compile") and any(k.arg == "flags" for k in n.keywords)]
+    FLAGS = norm(next(k.value for k in comp0[0].keywords if k.arg == "flags")) if comp0 else "flags"
+    flag_src = " ".join(norm(s) for s in stmts_local(db.body) if isinstance(s, ast.Assign) and norm(s.targets[0]) == FLAGS)
     utf8 = "HS_FLAG_UTF8" in flag_src
     ctx.extra["hyperscan_flags_expression"] = flag_src[:200]
     kinds: Dict[str, List[int]] = {}
@@ -178,7 +180,9 @@ def rule_revalidation(ctx: Ctx):
     ctx.ob("R-C14-7", f"{q}/byte-to-str-offsets-by-decoding", okd,
            "str offsets are obtained by decoding the bytes between consecutive hit offsets (len(bytes[a:b].decode())), and an offset that splits a "
            "character (UnicodeDecodeError) is dropped: offsets of kept hits are exact for every text", node=dec[0] if dec else fn, mod=tm)
-    lookups = [n for n in walk_local(fn) if isinstance(n, ast.Compare) and any(isinstance(o, ast.In) for o in n.ops) and "byte_to_str" in norm(n.comparators[0])]
+    table = next((norm(x.targets[0].value) for x in stmts_local(fn.body) if isinstance(x, ast.Assign) and isinstance(x.targets[0], ast.Subscript)
+                  and isinstance(x.targets[0].value, ast.Name)), None)
+    lookups = [n for n in walk_local(fn) if isinstance(n, ast.Compare) and any(isinstance(o, ast.In) for o in n.ops) and table and norm(n.comparators[0]) == table]
     ctx.ob("R-C14-7", f"{q}/misaligned-hits-discarded", len(lookups) >= 2, "a hit is used only if both of its offsets decoded", node=lookups[0] if lookups else fn, mod=tm)
 
 
@@ -251,8 +255,8 @@ def rule_cache(ctx: Ctx):
            f"interpretation of a possibly truncated/corrupted file (header parsing, checksums, helpers) can raise something the handlers do not cover ({why})",
            node=loads[0] if loads else db, mod=tm)
     # R-C14-6 cache key: both lists, order-preserving
-    fp = [s for s in stmts_local(db.body) if isinstance(s, ast.Assign) and norm(s.targets[0]) == "fingerprint"]
-    comp_call = [n for n in walk_local(db) if isinstance(n, ast.Call) and norm(n.func).endswith(".compile")]
+    fp = [s for s in stmts_local(db.body) if isinstance(s, ast.Assign) and isinstance(s.value, ast.Call) and "hashlib." in norm(s.value) and "hexdigest" in norm(s.value)]
+    comp_call = [n for n in walk_local(db) if isinstance(n, ast.Call) and norm(n.func).endswith(".compile") and n.keywords]
     okk, why = False, "fingerprint / compile call not found"
     if fp and comp_call:
         kw = {k.arg: norm(k.value) for k in comp_call[0].keywords}
@@ -266,7 +270,8 @@ def rule_cache(ctx: Ctx):
            "the cache key is a digest of str(<expressions>) and str(<flags>), the very lists passed to compile, in their order (Hyperscan match ids are "
            f"positions in that list): {why}", node=fp[0] if fp else db, mod=tm)
     # expressions / flags are built from self.extractors in order
-    for name in ("expressions", "flags"):
+    kw0 = {k.arg: norm(k.value) for k in comp_call[0].keywords} if comp_call else {}
+    for name in (kw0.get("expressions", "expressions"), kw0.get("flags", "flags")):
         d = [s for s in stmts_local(db.body) if isinstance(s, ast.Assign) and norm(s.targets[0]) == name]
         okl = len(d) == 1 and isinstance(d[0].value, ast.ListComp) and norm(d[0].value.generators[0].iter) == "self.extractors" and not d[0].value.generators[0].ifs
         ctx.ob("R-C14-6", f"{q}/{name}-in-extractor-order", okl, f"`{name}` has one entry per extractor, in the order of self.extractors", node=d[0] if d else db, mod=tm)
